@@ -187,7 +187,21 @@ func genC15(w *bufio.Writer, tier string, rng *rand.Rand) {
 			for i := range v {
 				v[i] = math.Round((0.1+rng.Float64()*3)*64) / 64
 			}
-			if rng.Intn(5) == 0 { // all weights on a very small / very large common scale (1/sigma^2 with huge or tiny sigma)
+			if rng.Intn(6) == 0 { // normalised weights: unequal, yet they add up to exactly the number of points (or to 1)
+				for i := 0; i+1 < nx; i += 2 {
+					d := float64(1+rng.Intn(60)) / 64
+					v[i], v[i+1] = 1-d, 1+d
+				}
+				if nx%2 == 1 {
+					v[nx-1] = 1
+				}
+				rng.Shuffle(nx, func(i, j int) { v[i], v[j] = v[j], v[i] })
+				if rng.Intn(3) == 0 && nx&(nx-1) == 0 { // a power of two many points: divide exactly so that the sum is 1
+					for i := range v {
+						v[i] /= float64(nx)
+					}
+				}
+			} else if rng.Intn(5) == 0 { // all weights on a very small / very large common scale (1/sigma^2 with huge or tiny sigma)
 				sc := math.Ldexp(1, []int{-80, -330, 80, 330, -600, 600}[rng.Intn(6)])
 				for i := range v {
 					v[i] *= sc
